@@ -90,7 +90,7 @@ impl Property for C07 {
             real: &["src/entry.rs (read, write, swap_any, guards, map/try_map)", "src/hot_reloading/mod.rs + paths.rs (local mode: update only inside hot_reload)", "src/utils/private.rs (RwLock wrapper)"],
             stub: &["RwLock<()> of each entry (detsim; writer- or reader-preferring per run; std-style and parking_lot-style front-ends)", "scheduler; channels"],
             assumptions: &["swap_any is one memcpy without a scheduling point inside: a reader that bypasses the lock cannot be caught *mid-swap* by engine A (value mixtures of that kind are left to the Miri engine); engine A catches every protocol error visible at lock boundaries", "generator respects the documented preconditions: no guard held across hot_reload on the same thread, no nested guards on one asset on one thread"],
-            runs: (16_000, 1_000_000),
+            runs: (120_000, 4_000_000),
         }
     }
     fn generate(&self, g: &mut SplitMix, k: &mut SplitMix, _tier: Tier) -> (Knobs, Value) {
